@@ -52,6 +52,53 @@ Theorem C12_miss_after_expiry :
 Proof. intros K V keq sz S. exact (miss_after_expiry K V keq sz S). Qed.
 Print Assumptions C12_miss_after_expiry.
 
+(* The time-to-live handed to Set is not always positive (a provider's
+   retry-after instant that is not in the future, ttl_seconds: 0).  None of the
+   statements above restricts its sign; stated separately: an entry whose
+   time-to-live is zero or negative is never replayed at an instant after the
+   clock reading of its Set -- whether or not its sleeper ever ran -- ... *)
+Theorem C12_nonpositive_ttl_never_replayed_later :
+  forall (K V : Type) (keq : K -> K -> bool) (sz : K -> V -> Z),
+  (forall a b, keq a b = true <-> a = b) ->
+  forall lim (h : list (op K V)) k now,
+  (forall id v ttl tb, In (OSet id k v ttl tb) h -> ttl <= 0 /\ tb < now) ->
+  get keq (exec keq sz lim empty h) k now = None.
+Proof. intros K V keq sz S. exact (nonpositive_ttl_dead K V keq sz S). Qed.
+Print Assumptions C12_nonpositive_ttl_never_replayed_later.
+
+(* ... and it does not block its key: a committed Set replaces whatever is
+   stored under the key (live, dead but still held, or nothing), and the new
+   entry answers exactly until its own expiry instant. *)
+Theorem C12_set_replaces_any_entry :
+  forall (K V : Type) (keq : K -> K -> bool) (sz : K -> V -> Z),
+  (forall a b, keq a b = true <-> a = b) ->
+  forall lim (c : cache K V) id k v ttl tb now,
+  snd (step keq sz lim c (OSet id k v ttl tb)) = RSet true ->
+  get keq (fst (step keq sz lim c (OSet id k v ttl tb))) k now =
+  if now <=? tb + ttl then Some v else None.
+Proof. intros K V keq sz S lim c id k v ttl tb now. exact (set_replaces K V keq sz S lim id k v ttl tb c now). Qed.
+Print Assumptions C12_set_replaces_any_entry.
+
+(* Non-vacuity: time-to-live 0 (replayable at the very clock reading only, the
+   code tests now > expiry) and -5 (never); the dead entries are physically
+   held and counted (size 4 + 4 of limit 10: a Set of size 3 is refused) until
+   a sleeper removes them; a second Set of the key replaces the dead entry. *)
+Example C12_nonpositive_ttl_example :
+  let h := [OSet 1 7 (11, 4) 0 100; OGet 7 100; OGet 7 101;
+            OSet 2 8 (12, 4) (-5) 100; OGet 8 100; OHas 8 100;
+            OSet 3 9 (13, 3) 10 100;          (* refused: 4 + 4 + 3 > 10 *)
+            OFire 2 8;                        (* sleeper of the dead entry *)
+            OSet 4 9 (13, 2) 10 100;          (* now there is room *)
+            OSet 5 7 (14, 0) 10 101;          (* replaces the dead entry of key 7 *)
+            OGet 7 111; OGet 7 112] in
+  map snd (trace Z.eqb cache_sz (Some 10) empty h) =
+  [RSet true; RGet (Some (11, 4)); RGet None;
+   RSet true; RGet None; RHas false;
+   RSet false; RUnit; RSet true; RSet true;
+   RGet (Some (14, 0)); RGet None] /\
+  map fst (store (exec Z.eqb cache_sz (Some 10) empty (firstn 6 h))) = [8; 7].
+Proof. vm_compute. split; reflexivity. Qed.
+
 (* A sleeper — of the current or of an older entry of its key, fired at any
    time — can only remove: every hit after it was a hit before it, and the
    stored entry of every key is unchanged or gone.  The same holds for every
@@ -193,6 +240,20 @@ Proof.
 Qed.
 Print Assumptions C12_caching_size_bound.
 
+(* ttl_seconds zero or negative (the configuration admits it; an omitted
+   ttl_seconds is 0): a stored response is never replayed at an instant after
+   the OnResponse that stored it. *)
+Theorem C12_caching_nonpositive_ttl :
+  forall (H : Type) (hash : str -> H) (heq : H -> H -> bool),
+  (forall a b, heq a b = true <-> a = b) ->
+  (forall a b, hash a = hash b -> a = b) ->
+  forall conf (h : list cop) m u ps now,
+  c_ttl conf <= 0 ->
+  (forall id ps' v t, In (CResp id m u ps' v t) h -> t < now) ->
+  snd (cstep H hash heq conf (cexec H hash heq conf empty h) (CReq m u ps now)) = CNoOp.
+Proof. intros H hash heq S I. exact (caching_nonpositive_ttl H hash heq S I). Qed.
+Print Assumptions C12_caching_nonpositive_ttl.
+
 Example C12_caching_example :
   let conf := {| c_paths := [(true, [105; 100])]; c_ttl := 10; c_maxrec := 50; c_max := 400 |} in
   let r v := {| r_vid := v; r_idlen := 6%N; r_bodylen := 30%N; r_hdrlen := 20%N |} in
@@ -249,6 +310,34 @@ Proof.
   split; [reflexivity|]. exists id, st, ra, t. tauto.
 Qed.
 Print Assumptions C12_throttle_absolute_epoch.
+
+(* A throttling response whose retry-after time is not in the future (any more)
+   is not replayed, whatever sleepers did: absolute epoch, provider's instant
+   < now -- including an instant that had already passed when the response
+   was received (time-to-live <= 0); relative, received + retry-after <= now
+   -- including every retry-after value <= 0 from the reception on. *)
+Theorem C12_throttle_not_in_future_never_replayed :
+  forall conf (h : list top) m u now,
+  (forall id status vid ra t, In (TResp id m u status vid (Some ra) t) h ->
+     match t_type conf with
+     | RAbs => ra < now
+     | RRel => t + ra <= now
+     | RUndef => True
+     end) ->
+  snd (tstep conf (texec conf empty h) (TReq m u now)) = TNoOp.
+Proof. exact throttle_not_in_future. Qed.
+Print Assumptions C12_throttle_not_in_future_never_replayed.
+
+(* Non-vacuity: provider's instant 90 received at 100 (time-to-live -10): never
+   replayed, a later response (instant 130) takes its place. *)
+Example C12_throttle_past_epoch_example :
+  let conf := {| t_type := RAbs; t_statuses := [429] |} in
+  let GET := [71; 69; 84] in let u := [97] in
+  let h := [(TResp 0 GET u 429 1 (Some 90) 100); (TReq GET u 100); (TReq GET u 101);
+            (TResp 1 GET u 429 2 (Some 130) 101); (TReq GET u 130); (TReq GET u 131)] in
+  map fst (snd (run_throttle_from conf empty (map (fun o => (o, (TBad, 0))) h))) =
+  [TDone; TNoOp; TNoOp; TDone; TEarly 2 (Some 130); TNoOp].
+Proof. vm_compute. reflexivity. Qed.
 
 (* Before fix-F-C12b the time-to-live was computed from the whole seconds of
    the clock: the stored response outlived the provider's instant by the
